@@ -5,6 +5,7 @@ import Exetera.Props.C10.Basic
 import Exetera.Props.C10.MapValid
 import Exetera.Props.C10.Spans
 import Exetera.Props.C10.FilterIndex
+import Exetera.Props.C10.Unique
 /-!
 # C10 — compiled kernels never touch memory outside their arrays (join kernels part)
 
